@@ -680,6 +680,102 @@ func runC15(c *Ctx) {
 	}
 	fifoShape(c, "R5")
 	peekBelief(c, "R6", 5)
+
+	// R7 the queue is built from the configured byte limit, after the options were applied
+	o = c.Obl("R7", fname(nw), "the filter's queue gets no count limit and, as its byte limit, the value of the size field read after the caller's options were applied (so a configured queue size is the one in force)", 1)
+	var opts *ssa.Parameter
+	for _, prm := range nw.Params {
+		if sl, ok := prm.Type().Underlying().(*types.Slice); ok {
+			if _, isFn := sl.Elem().Underlying().(*types.Signature); isFn {
+				opts = prm
+			}
+		}
+	}
+	var applyOpts []ssa.Instruction
+	if opts != nil {
+		applyOpts = findU(nw, func(in ssa.Instruction) bool {
+			cl, ok := in.(*ssa.Call)
+			if !ok {
+				return false
+			}
+			for _, a := range cl.Call.Args {
+				if sameOrigin(a, ssa.Value(opts)) {
+					return true
+				}
+			}
+			return false
+		})
+	}
+	nQ := 0
+	for _, in := range findU(nw, func(in ssa.Instruction) bool {
+		st, ok := in.(*ssa.Store)
+		if !ok {
+			return false
+		}
+		fr, ok := asFieldAddr(st.Addr)
+		return ok && fr.SName == T && typeName(st.Val.Type()) == "vnet.chunkQueue"
+	}) {
+		st := in.(*ssa.Store)
+		if isNilConst(st.Val) {
+			continue
+		}
+		mk, ok := derefLocal(st.Val).(*ssa.Call)
+		if !ok || mk.Call.StaticCallee() == nil || len(mk.Call.Args) != 2 {
+			o.Fail(in.Pos(), "the filter's queue is not built by the queue constructor")
+			continue
+		}
+		nQ++
+		o.Site(in.Pos(), "queue = %s", mk.String())
+		if k, ok := constInt(mk.Call.Args[0]); !ok || k != 0 {
+			o.Fail(in.Pos(), "the filter's queue has a count limit: datagrams are discarded although the byte queue is not full")
+		}
+		fr, ok := asFieldLoad(mk.Call.Args[1])
+		if !ok || fr.SName != T {
+			o.Fail(in.Pos(), "the byte limit of the queue is not the filter's configured queue size")
+			continue
+		}
+		// the option setters write this very field
+		written := false
+		for _, g := range p.Funcs {
+			if pkgOf(g) != "vnet" || g.Parent() == nil {
+				continue
+			}
+			instrsOf(g, func(x ssa.Instruction) {
+				if isFieldStore(x, T, fr.Field) {
+					switch ov := origin(x.(*ssa.Store).Val).(type) {
+					case *ssa.FreeVar:
+						written = true
+					case *ssa.Parameter:
+						if ov.Parent() != g { // a parameter of the function that makes the option
+							written = true
+						}
+					case *ssa.UnOp:
+						if _, isFV := ov.X.(*ssa.FreeVar); isFV {
+							written = true
+						}
+					}
+				}
+			})
+		}
+		if !written {
+			o.Fail(in.Pos(), "no option sets %s.%s, the field the queue size is taken from", T, fr.Field)
+		}
+		ld, _ := origin(mk.Call.Args[1]).(ssa.Instruction)
+		if opts != nil {
+			okOrder := false
+			for _, ap := range applyOpts {
+				if ld != nil && domU(ap, ld) {
+					okOrder = true
+				}
+			}
+			if !okOrder {
+				o.Fail(in.Pos(), "the queue size is read before the caller's options are applied: TBFQueueSizeInBytes has no effect and datagrams are discarded beyond the default size")
+			}
+		}
+	}
+	if nQ == 0 {
+		o.Fail(nw.Pos(), "the constructor does not create the filter's queue")
+	}
 }
 
 // ---------------------------------------------------------------------------------
